@@ -629,10 +629,13 @@ class Arc(Entity):
             # we don't need the angular span as
             # it's indicated as a closed circle
             fit = self.center(vertices, return_normal=False, return_angle=False)
-            return np.pi * fit.radius * 4
+            # the circumference of the full circle
+            return np.pi * fit.radius * 2
         # get the angular span of the circular arc
         fit = self.center(vertices, return_normal=False, return_angle=True)
-        return fit.span * fit.radius * 2
+        # `span` is the full angle swept from the first to the last
+        # control point so the arc length is just `angle * radius`
+        return fit.span * fit.radius
 
     def discrete(self, vertices, scale=1.0):
         """
